@@ -171,8 +171,7 @@ def canonical(case_doc, key_last=None):
 
 @st.composite
 def finished(draw, doc, kind, frozen_paths=(), feats=None, extra=None):
-    """quantise, jitter, canonical member order; rarely records in extra['key_last'] one keyed entry whose key member
-    is to be written last (applied by `canonical` at run time). returns (doc, cls)"""
+    """quantise, jitter, canonical member order (key leaves of keyed-list entries first). returns (doc, cls)"""
     quantize(doc, kind)
     cls = draw(st.sampled_from(['a', 'a', 'b']))
     if draw(st.sampled_from([False, False, True])):
@@ -186,12 +185,6 @@ def finished(draw, doc, kind, frozen_paths=(), feats=None, extra=None):
             mv += draw(moves(4, excess=True, min_moves=1))
     apply_jitter(doc, kind, mv, frozen_paths)
     keys_first(doc)
-    if feats is not None and draw(st.sampled_from([False] * 11 + [True])):
-        entries = [(n, e, k) for n, e, k in keyed_entries(doc) if len(e) > len(k)]
-        if entries and extra is not None:
-            name, entry, keys = entries[draw(st.integers(0, len(entries) - 1))]
-            extra['key_last'] = {'list': name, 'key': [entry[k] for k in keys]}
-            feats.add('key-not-first:' + name)
     return doc, ('b' if excess_leaves(doc, kind) else 'a')
 
 
@@ -328,6 +321,8 @@ def enrich_topology(draw, topo, eq, feats):
         if el['type'] in ('Fiber', 'RamanFiber'):
             p = el['params']
             w = draw(st.integers(0, 9))
+            if use_dpf and 'dispersion_per_frequency' not in feats:
+                w = 5
             if w == 0:
                 p['raman_coefficient'] = {'g0': [0.0, round(draw(st.floats(1e-5, 2e-4)), 14),
                                                  round(draw(st.floats(2e-4, 5e-4)), 14)],
@@ -688,3 +683,33 @@ def seed_case(draw):
     if cls == 'b':
         mv += draw(moves(3, excess=True, min_moves=1))
     return {'kind': kind, 'file': f, 'moves': mv}
+
+
+# ----------------------------------------------------------------------------------------- member order of keyed entries
+
+@st.composite
+def key_order_case(draw):
+    """a valid document of one of the four kinds that own keyed lists + one keyed-list entry whose key member(s)
+    are to be written last (JSON objects are unordered; every legacy loader accepts any member order)"""
+    kind = draw(st.sampled_from(['equipment', 'topology', 'services', 'spectrum']))
+    if kind == 'equipment':
+        c = draw(equipment_doc(multiband=False))
+    elif kind == 'topology':
+        c = draw(topology_case(n=(2, 2)))
+        # fields with a recorded conversion defect of their own would hide the member-order outcome
+        for el in c['doc']['elements']:
+            (el.get('params') or {}).pop('dispersion_per_frequency', None)
+    elif kind == 'services':
+        c = draw(services_case())
+    else:
+        c = draw(spectrum_case())
+    quantize(c['doc'], kind)
+    entries = list(keyed_entries(c['doc']))
+    names = sorted({n for n, _, _ in entries})
+    handled = [n for n in names if n in ('lumped_losses', 'raman_pumps', 'route-object-include-exclude')]
+    # the three lists the converters re-order themselves are the ones expected to pass: half of the draws when present
+    name = draw(st.sampled_from(handled)) if handled and draw(st.booleans()) else draw(st.sampled_from(names))
+    cand = [(e, k) for n, e, k in entries if n == name]
+    entry, keys = cand[draw(st.integers(0, len(cand) - 1))]
+    return {'kind': kind, 'doc': c['doc'], 'eq': c.get('eq'), 'cls': 'a', 'features': [],
+            'key_last': {'list': name, 'key': [entry[k] for k in keys]}}
